@@ -25,6 +25,10 @@ func probeDesign() *m.Design {
 	add("nulls", rt.Obj(rt.Fld("o", rt.Obj(rt.Fld("x", m.Prim(m.String), false), rt.Fld("y", m.Prim(m.Int), false)), false)), nil)
 	add("byteslen", rt.Obj(rt.Fld("b", &m.Attr{Type: &m.Type{Kind: m.Bytes}, V: &m.Validation{MaxLen: ip(4)}}, true)), nil)
 	add("maplen", rt.Obj(rt.Fld("mm", &m.Attr{Type: &m.Type{Kind: m.Map, Key: m.Prim(m.String), Val: m.Prim(m.Boolean)}, V: &m.Validation{MinLen: ip(2)}}, true)), nil)
+	// a bound written in the Param mapping of an alias-typed attribute
+	d.Types = append(d.Types, &m.UserType{Name: "Quantity", Var: "v9", Attr: &m.Attr{Type: &m.Type{Kind: m.Int}, V: &m.Validation{Min: fp(1)}}})
+	s.Methods = append(s.Methods, &m.Method{Name: "stock", Payload: rt.Obj(rt.Fld("batch", &m.Attr{Type: &m.Type{Kind: m.User, User: "Quantity"}, V: &m.Validation{Max: fp(50)}, VAtMapping: true}, false)),
+		HTTP: &m.HTTPEndpoint{Routes: []m.Route{{Verb: "POST", Path: "/stock"}}, Query: []m.Mapping{{Attr: "batch"}}}})
 	// two bodies with the same attributes, only the first restricts "a"
 	add("enuma", rt.Obj(rt.Fld("a", &m.Attr{Type: &m.Type{Kind: m.String}, V: &m.Validation{Enum: []value.V{value.Str("red"), value.Str("green")}}}, true)), nil)
 	add("enumb", rt.Obj(rt.Fld("a", m.Prim(m.String), true)), nil)
@@ -68,6 +72,18 @@ func TestProbes(t *testing.T) {
 		rb := d3.Paths["/enumb"]["post"].RequestBody.Content["application/json"].Schema.Ref
 		return ra != "" && ra == rb, "request bodies {a: String Enum(red, green)} and {a: String}: openapi3.json refers both to " + ra + " / " + rb
 	})
+	rt.Probe("C14-param-mapping-validation-on-alias-not-documented", func() (bool, string) {
+		o := call("stock", value.Object(f("batch", value.Int(51))))
+		i := strings.Index(doc, `"name":"batch"`)
+		param := ""
+		if i >= 0 {
+			param = doc[i:]
+			if j := strings.Index(param, "}"); j > 0 {
+				param = param[:j]
+			}
+		}
+		return o.StubCalls == 0 && !strings.Contains(param, `"maximum":50`), "Param(\"batch\", func(){ Maximum(50) }) on an attribute of type Quantity (Int, Minimum(1)): the server rejects 51, openapi3.json documents " + param
+	})
 	rt.Probe("C14-null-for-unset-nested-attribute", func() (bool, string) {
 		o := call("nulls", value.Object(f("o", value.Object(f("x", value.Str("a"))))))
 		body := ""
@@ -93,3 +109,5 @@ func TestProbes(t *testing.T) {
 func itoa(i int) string {
 	return string(rune('0'+i/100%10)) + string(rune('0'+i/10%10)) + string(rune('0'+i%10))
 }
+
+func fp(f float64) *float64 { return &f }
